@@ -182,7 +182,24 @@ def enumerate_scenarios(tier, seed):
                         s['exit_gap_us'] = gap
                     s['enum'] = [shape, n, gap]
                     out.append(s)
+    # every interleaving choice of the baton scheduler (main thread vs PopenSpawn's reader thread) up to a bounded
+    # length, for a child that writes 1500 bytes in two pieces (more than one 1024-byte thread read) and exits
+    import itertools
+    L = 7 if tier == 'quick' else 10
+    for size in (1, 700, 2000):
+        for T in (0, 0.002):
+            for bits in itertools.product((0, 1), repeat=L):
+                out.append({'family': 'fidelity', 'transport': 'popen', 'costs': [3], 'maxread': 2000, 'size': size, 'mode': 'rnb',
+                            'T': T, 'timeout': 0.004, 'pause_us': 300, 'step_cap': 60000, 'delayafterread': 0.0002,
+                            'sched': list(bits),
+                            'peer': [{'op': 'w', 'd': payload_fixed(900), 'dt': 10}, {'op': 'w', 'd': payload_fixed(600), 'dt': 40},
+                                     {'op': 'exit', 'code': 0, 'dt': 30}],
+                            'enum': ['sched', size, T]})
     return out
+
+
+def payload_fixed(n):
+    return ''.join('%d,' % i for i in range(1000, 1000 + n))[:n]
 
 
 # ------------------------------------------------------------------ running
